@@ -22,18 +22,6 @@ import BpProofs.Props.C06
 namespace Bp
 open Gen
 
-/-- a singular wrapper field wrapping the scalar type `w`.
-    `kind`: the class in the type hint of a wrapper field is the generated wrapper class, never
-    `datetime` / `timedelta` — necessary, since `postLen` dispatches on `f.kind` first (with
-    `kind = .timestamp` the payload would be decoded as a Timestamp). -/
-structure WrapField (f : FieldD) (w : PType) : Prop where
-  ty : f.ty = PType.message
-  wr : f.wraps = some w
-  wty : isScalarType w = true
-  num : numOk f.num = true
-  rep : f.repeated = false
-  kind : ∃ c, f.kind = MsgKind.user c
-
 /-- the values a wrapper restores exactly: everything but the two negative zeros -/
 def wrapStable : Val → Bool
   | .f32 b => b != 0x80000000
